@@ -4,6 +4,7 @@
 //   ufunc2 S:<add|subtract|multiply|lin|less> S:<kindA> S:<kindB> <A> <B>     operand: A:shape:data | I:v (scalar)
 //   ufunc3 S:where <A> <B> <C>
 //   outer  S:<add|subtract|lin> <A> <B>
+//   defer  S:<u1|binl|binr|bins|outl|outr|outs|wh> S:<dyn|fs> <A1> <B1> I:<c1> <A2> <B2> I:<c2>   (deferred evaluation, below)
 // kind: arr (the array itself) | view (an element-wise view of it: negative(negative(a))) | fix (fixed-rank array)
 // lin  = view::ufunc with a custom op 3*x - y  (non-commutative, non-associative)
 #include "nmtools/array/view/ufuncs/add.hpp"
@@ -40,7 +41,83 @@ static std::string with_operand(const std::string& kind, const Arg& A, F&& f) {
     return "unsupported";
 }
 
+// ---- deferred evaluation: a view is a VALUE over its leaf arrays.  Each helper builds a composed view from TEMPORARY
+// operand views / scalars in its own frame and returns it by value; the caller invokes the helper twice with different
+// data before reading either result, so a view that kept a pointer / reference to a temporary operand view reads a
+// dead (and meanwhile re-used) stack frame.  k is a scalar that exists only inside the helper.
+#define VD_NOINLINE __attribute__((noinline))
+template <typename A> VD_NOINLINE static auto d_u1(const A& a) { auto t = view::negative(a); return view::unary_ufunc(lin1_t{}, t); }
+template <typename A, typename B> VD_NOINLINE static auto d_binl(const A& a, const B& b) { auto t = view::negative(a); return view::broadcast_binary_ufunc(lin2_t{}, t, b); }
+template <typename A, typename B> VD_NOINLINE static auto d_binr(const A& a, const B& b) { return view::broadcast_binary_ufunc(lin2_t{}, a, view::negative(b)); }
+template <typename A, typename B> VD_NOINLINE static auto d_bins(const A& a, const B& b, ll c) {
+    ll k = c + 1; auto x = view::add(a, k); auto y = view::multiply(b, k + 1);
+    return view::broadcast_binary_ufunc(lin2_t{}, x, y);
+}
+template <typename A, typename B> VD_NOINLINE static auto d_outl(const A& a, const B& b) { auto t = view::negative(a); return view::outer(lin2_t{}, t, b); }
+template <typename A, typename B> VD_NOINLINE static auto d_outr(const A& a, const B& b) { return view::outer(lin2_t{}, a, view::negative(b)); }
+template <typename A, typename B> VD_NOINLINE static auto d_outs(const A& a, const B& b, ll c) {
+    ll k = c + 1; auto x = view::unary_ufunc(lin1_t{}, a); auto y = view::negative(view::negative(b));
+    return view::outer_subtract(view::negative(x), view::square(y));
+    (void)k;
+}
+template <typename A, typename B> VD_NOINLINE static auto d_wh(const A& a, const B& b, ll c) {
+    ll k = c + 1; auto cond = view::negative(a); auto x = view::negative(b);
+    return view::where(cond, x, k);
+}
+
+// printer for the deferred stream: like vd::show, but a result of compile-time rank is indexed with a std::array index
+// (views over nested std::array cannot be indexed with a run-time-length index)
+template <typename V>
+static std::string showd(const V& v) {
+    if constexpr (meta::is_maybe_v<V>) { if (!nm::has_value(v)) return "nothing"; return showd(*v); }
+    else {
+        const auto shp = nm::unwrap(nm::shape(v));
+        using shp_t = std::decay_t<decltype(shp)>;
+        constexpr auto R = meta::len_v<shp_t>;
+        if constexpr (R > 0) {
+            std::array<size_t, R> ext{}, idx{};
+            if constexpr (meta::is_tuple_v<shp_t>) meta::template_for<R>([&](auto i) { ext[i] = (size_t)nm::at(shp, i); });
+            else for (size_t i = 0; i < R; i++) ext[i] = (size_t)nm::at(shp, i);
+            size_t total = 1; for (auto e : ext) total *= e;
+            std::string o = "ok " + joinc(ext) + " ;";
+            for (size_t c = 0; c < total; c++) {
+                o += (c ? "," : " ") + num_str(nm::apply_at(v, idx));
+                for (int d = (int)R - 1; d >= 0; d--) { if (++idx[d] < ext[d]) break; idx[d] = 0; }
+            }
+            return o;
+        } else return show(v);
+    }
+}
+
+template <typename A, typename B>
+static std::string defer_case(const std::string& form, const A& a1, const B& b1, ll c1, const A& a2, const B& b2, ll c2) {
+    auto both = [](const auto& e1, const auto& e2) { return showd(e1) + " | " + showd(e2); };
+    if (form == "u1") { auto e1 = d_u1(a1); auto e2 = d_u1(a2); return both(e1, e2); }
+    if (form == "binl") { auto e1 = d_binl(a1, b1); auto e2 = d_binl(a2, b2); return both(e1, e2); }
+    if (form == "binr") { auto e1 = d_binr(a1, b1); auto e2 = d_binr(a2, b2); return both(e1, e2); }
+    if (form == "bins") { auto e1 = d_bins(a1, b1, c1); auto e2 = d_bins(a2, b2, c2); return both(e1, e2); }
+    if (form == "outl") { auto e1 = d_outl(a1, b1); auto e2 = d_outl(a2, b2); return both(e1, e2); }
+    if (form == "outr") { auto e1 = d_outr(a1, b1); auto e2 = d_outr(a2, b2); return both(e1, e2); }
+    if (form == "outs") { auto e1 = d_outs(a1, b1, c1); auto e2 = d_outs(a2, b2, c2); return both(e1, e2); }
+    if (form == "wh") { auto e1 = d_wh(a1, b1, c1); auto e2 = d_wh(a2, b2, c2); return both(e1, e2); }
+    return "unsupported";
+}
+
 static std::string handle(const Case& c) {
+    if (c.op == "defer") {
+        // defer S:<form> S:<dyn|fs> <A1> <B1> I:<c1> <A2> <B2> I:<c2>     fs: A is (2,3), B is (3) as nested std::array
+        const std::string form = c.args[0].raw.substr(2), kind = c.args[1].raw.substr(2);
+        ll c1 = c.args[4].val, c2 = c.args[7].val;
+        if (kind == "dyn") return defer_case(form, make_array(c.args[2]), make_array(c.args[3]), c1, make_array(c.args[5]), make_array(c.args[6]), c2);
+        if (kind == "fs") {
+            using A23 = std::array<std::array<ll,3>,2>; using B3 = std::array<ll,3>;
+            auto mkA = [](const Arg& x) { A23 a{}; for (int i = 0; i < 6; i++) a[i / 3][i % 3] = x.list[i]; return a; };
+            auto mkB = [](const Arg& x) { B3 b{}; for (int i = 0; i < 3; i++) b[i] = x.list[i]; return b; };
+            if (c.args[2].list.size() != 6 || c.args[3].list.size() != 3) return "unsupported";
+            return defer_case(form, mkA(c.args[2]), mkB(c.args[3]), c1, mkA(c.args[5]), mkB(c.args[6]), c2);
+        }
+        return "unsupported";
+    }
     const std::string op = c.args[0].raw.substr(2);
     if (c.op == "ufunc1") {
         return with_operand(c.args[1].raw.substr(2), c.args[2], [&](const auto& a) -> std::string {
